@@ -567,16 +567,19 @@ func (f *Frame) copyCall(in *ssa.Call) {
 		res := f.fresh(in.Name()+".arr"+l.path, ArrayS(IntS, l.sort))
 		ib := Bound{Name: "i!" + in.Name(), S: IntS}
 		iv := Var(ib.Name, IntS)
+		// stated over the absolute destination index p (= dst.Off + i), so that the solvers'
+		// matching finds the instance for any read of the result
 		var srcEl *Term
+		rel := Sub(iv, dst.Off)
 		switch src.K {
 		case VSlice:
-			srcEl = Select(Select(cur, src.Base), Add(src.Off, iv))
+			srcEl = Select(Select(cur, src.Base), Add(src.Off, rel))
 		case VBytes:
-			srcEl = Select(src.Arr, Add(src.Off, iv))
+			srcEl = Select(src.Arr, Add(src.Off, rel))
 		default:
-			srcEl = App("str.to_code", IntS, App("str.at", StringS, src.X, iv))
+			srcEl = App("str.to_code", IntS, App("str.at", StringS, src.X, rel))
 		}
-		f.assume(Forall([]Bound{ib}, Implies(And(Ge(iv, IntLit(0)), Lt(iv, n)), Eq(Select(res, Add(dst.Off, iv)), srcEl))), "copy copies")
+		f.assume(Forall([]Bound{ib}, Implies(And(Ge(iv, dst.Off), Lt(iv, Add(dst.Off, n))), Eq(Select(res, iv), srcEl))), "copy copies")
 		f.assume(Forall([]Bound{ib}, Implies(Or(Lt(iv, dst.Off), Ge(iv, Add(dst.Off, n))), Eq(Select(res, iv), Select(darr, iv)))), "copy leaves the rest alone")
 		f.st.Set(k, srt, f.E.name(Store(cur, dst.Base, res), f.prefix+"s$"+k))
 	}
